@@ -61,7 +61,7 @@ func describeToks(ts []lexTok) string {
 }
 
 func checkC14(c *Check) {
-	c.rule = "MC_Lex: (1) every string of length 1..4 (thorough: 5) over an 18-character alphabet (letters incl. escape letter n and flag letters i m, digits 1 0, '.', both quotes, backslash, '/', newline, space, '#', a multi-byte letter, brackets, '=') with the token stream EFLexer prescribes (types and literals; the stream stops at the first ILLEGAL); (2) triples of 17 token spellings (identifiers, keyword, integer, decimal, strings holding quotes and comment openers, regexp with an escaped slash and a flag, operators) with 7 separators (space, newline, tab, comments, CR LF, a comment holding a quote) in every gap and at both ends: same tokens as the plain layout; inputs that are one literal are also executed and must denote the spelled value; a watchdog bounds the number of NextToken calls by the input length; regexp literals whose pattern begins with or contains a group carrying flags of its own (15 patterns x 4 flag sets x 12 subjects; oracle: the host's regexp package on (?flags)pattern); MC_Lits: scripts writing several literals which print alike (\"2.5\" and 2.5; \"100000\", 100000 and 100000.0; \"a.c\" and /a.c/; ...) in every order, each used as what it is, run twice; distinct = distinct input text"
+	c.rule = "MC_Lex: (1) every string of length 1..4 (thorough: 5) over an 18-character alphabet (letters incl. escape letter n and flag letters i m, digits 1 0, '.', both quotes, backslash, '/', newline, space, '#', a multi-byte letter, brackets, '=') and every string of length 1..5 (thorough: 6) over a second alphabet of both quotes, backslash, CR, LF, TAB, a, n (every layout character behind a backslash inside and outside a literal) with the token stream EFLexer prescribes (types and literals; the stream stops at the first ILLEGAL); (2) triples of 17 token spellings (identifiers, keyword, integer, decimal, strings holding quotes and comment openers, regexp with an escaped slash and a flag, operators) with 7 separators (space, newline, tab, comments, CR LF, a comment holding a quote) in every gap and at both ends: same tokens as the plain layout; inputs that are one literal are also executed and must denote the spelled value; a watchdog bounds the number of NextToken calls by the input length; regexp literals whose pattern begins with or contains a group carrying flags of its own (15 patterns x 4 flag sets x 12 subjects; oracle: the host's regexp package on (?flags)pattern); MC_Lits: scripts writing several literals which print alike (\"2.5\" and 2.5; \"100000\", 100000 and 100000.0; \"a.c\" and /a.c/; ...) in every order, each used as what it is, run twice; distinct = distinct input text"
 	c.assumptions = []string{"a '/' is division after an identifier, a number, ')' or ']' and opens a regexp elsewhere", "what follows an ILLEGAL token is not compared", "only insertion of layout is tested, and comments are inserted after white space"}
 	type lexRow struct {
 		K    string            `json:"k"`
